@@ -169,6 +169,15 @@ def hostile_pdata():
     out.append(('empty-command', pdata([{'id': 1, 'data': b'\x03'}])))
     out.append(('group-length-lies', pdata([{'id': 1, 'data': b'\x03' + echo[:8] + b'\xff\xff\xff\x7f' + echo[12:]}])))
     out.append(('element-length-huge', pdata([{'id': 1, 'data': b'\x03' + echo[:12] + b'\x00\x00\x02\x00\xff\xff\xff\x7f' + b'1.2'}])))
+    # a complete, valid message followed IN THE SAME PDU by PDVs that are not: the message may be indicated, the rest
+    # is invalid content of that PDU
+    vecho = {'id': 1, 'data': b'\x03' + echo}
+    out.append(('valid-then-bad-header', pdata([vecho, {'id': 1, 'data': b'\x07' + echo}])))
+    out.append(('valid-then-empty-pdv', pdata([vecho, {'id': 1, 'data': b''}])))
+    out.append(('valid-then-garbage-command', pdata([vecho, {'id': 1, 'data': b'\x03' + b'\xff' * 30}])))
+    out.append(('valid-then-unknown-command-field', pdata([vecho, {'id': 1, 'data': b'\x03' + refcmd.encode({0x0002: convs.VERIF_UID, 0x0100: 0x0777, 0x0110: 2, 0x0800: 0x0101})}])))
+    out.append(('valid-then-unknown-context', pdata([vecho, {'id': 99, 'data': b'\x03' + echo}])))
+    out.append(('two-valid-then-bad', pdata([vecho, vecho, {'id': 1, 'data': b'\x05xx'}])))
     out.append(('undefined-length-element', pdata([{'id': 1, 'data': b'\x03' + echo[:12] + b'\x00\x00\x02\x00\xff\xff\xff\xff' + b'1.2.3.4'}])))
     return out
 
@@ -203,7 +212,9 @@ def invalid_pdata(frame):
         p = refpdu.parse_pdu(frame)
     except refpdu.RefError:
         return False
-    return any(len(v['data']) < 1 or v['data'][0] > 3 for v in p['pdvs'])
+    # (only the FIRST PDV counts: PDVs that follow a completed message in the same PDU are not looked at by a lenient
+    #  receiver, which is not a violation)
+    return any(len(v['data']) < 1 or v['data'][0] > 3 for v in p['pdvs'][:1])
 
 
 def certainly_undecodable(frame):
